@@ -147,6 +147,33 @@ def enumerate_pairs(tier, rng):
                     yield [[b + e, d - e]] + extra, [[b, d], [0.2, 0.4]], "decimal-ties"
                 if k % 5 == 0:
                     yield [[b, d], [b + e, d]], [[b + e, d + e]] + extra, "decimal-ties"
+    # one pool of points split into the two diagrams at every position, in consecutive calls (the same numbers, cut differently)
+    for _ in range(6 if tier == "quick" else 120):
+        pool = rand_dgm(rng, rng.randint(3, 7), lattice=rng.random() < 0.5)
+        for sp in range(len(pool) + 1):
+            yield [list(p) for p in pool[:sp]], [list(p) for p in pool[sp:]], "split-pool"
+    # rings: many bars of similar length arranged so that near and far partners alternate (long augmenting chains)
+    for _ in range(3 if tier == "quick" else 40):
+        k = rng.choice([13, 16, 20])
+        R, r0 = rng.choice([3.0, 10.0]), rng.choice([0.5, 1.0])
+        ring = lambda ph: [[10 + R * math.cos(2 * math.pi * (i + ph) / k) - 0.0, 10 + R * math.cos(2 * math.pi * (i + ph) / k) + 12 + r0 * math.sin(2 * math.pi * (i + ph) / k)] for i in range(k)]
+        yield ring(0.0), ring(0.5), "ring"
+        yield [[10 + R * math.cos(2 * math.pi * i / k), 25 + R * math.sin(2 * math.pi * i / k)] for i in range(k)], [[10 + R * math.cos(2 * math.pi * (i + 0.5) / k), 25 + R * math.sin(2 * math.pi * (i + 0.5) / k)] for i in range(k)], "ring"
+    # alternating chains wound around a small square: S_i -far- T_i -near- S_{i+1} ... (not closed), all bars long, so the optimal
+    # pairing is forced along the whole chain while cheap-looking alternatives need one expensive pairing
+    def _sq(t, W):
+        t = t % (4 * W)
+        return (t, 0.0) if t <= W else ((W, t - W) if t <= 2 * W else ((3 * W - t, W) if t <= 3 * W else (0.0, 4 * W - t)))
+    for (W, k) in ([(12, 13), (14, 16)] if tier == "quick" else [(12, 13), (14, 16), (16, 18), (20, 23), (10, 11), (13, 14)]):
+        far, near = rng.choice([3.0, 2.5]), rng.choice([0.25, 0.5])
+        S, T = [], []
+        for i in range(k):
+            x, y = _sq(i * (far + near), W)
+            S.append([x, W + 7.0 + y])
+            x, y = _sq(i * (far + near) + far, W)
+            T.append([x, W + 7.0 + y])
+        yield S, T, "chain"
+        yield T, S, "chain"
     # infinite deaths at every position (first, between finite points, last, several, all), in either or both diagrams
     for _ in range(80 if tier == "quick" else 1500):
         lat = rng.random() < 0.5
@@ -180,3 +207,98 @@ def hash_seed_run(kind, cases, seeds):
         else:
             results[s] = ("ok", json.loads(p.stdout.strip().splitlines()[-1]))
     return results
+
+
+
+def view_cases(rep, kind, rng, n):
+    """diagrams handed over as views of one buffer (windows, strided selections, columns of a wider table, Fortran order): what counts
+    is the points the views hold"""
+    from persim import bottleneck, wasserstein
+    f = bottleneck if kind == "inf" else wasserstein
+    fn = "bottleneck" if kind == "inf" else "wasserstein"
+    ev = 0
+    for _ in range(n):
+        k = rng.randint(4, 9)
+        pts = np.array(rand_dgm(rng, k, lattice=rng.random() < 0.5), dtype=float)
+        wide = np.hstack([pts, np.arange(k, dtype=float).reshape(-1, 1)])
+        m = rng.randint(1, k // 2)
+        views = [(pts[:m], pts[::2][:m]), (pts[:m], pts[1:m + 1]), (pts[::-1][:m], pts[:m]), (wide[:, :2][:m], wide[::2, :2][:m]), (np.asfortranarray(pts)[:m], pts[k - m:])]
+        for A, B in views:
+            la, lb = A.tolist(), B.tolist()
+            snap = pts.copy()
+            with warnings.catch_warnings():
+                warnings.simplefilter("ignore")
+                got = float(f(A, B))
+            want = oracle(kind, la, lb)
+            ev += 1
+            if got != got or abs(got - want) > tol_for(kind, la, lb, want):
+                rep.violation("%s of two views of one buffer = %r but the optimal matching cost of the points they hold (%s, %s) is %r" % (fn, got, la, lb, want), "%s:value:views" % fn,
+                              {"input": {"dgm1": la, "dgm2": lb, "as_views_of_one_buffer": True}, "observed": got, "expected": want})
+                return ev
+            if not np.array_equal(pts, snap):
+                rep.violation("%s wrote into the buffer its arguments are views of" % fn, "%s:views-mutated" % fn, {"input": {"dgm1": la, "dgm2": lb}})
+                return ev
+    return ev
+
+
+
+def huge_typed_case(rep, kind, rng):
+    """more than 2^20 point pairs, integer-typed first diagram (where implementations switch to blocked work):
+    the value against an independent assignment on the cost matrix of the statement"""
+    from persim import bottleneck, wasserstein
+    from scipy.optimize import linear_sum_assignment
+    fn = "bottleneck" if kind == "inf" else "wasserstein"
+    if kind == "inf":
+        return 0          # the bottleneck search on 2200 points takes minutes; the blocked-work family is exercised on Wasserstein
+    M, N = 1300, 900
+    A = np.array([[b, b + rng.randint(1, 40)] for b in (rng.randint(0, 200) for _ in range(M))], dtype=int)
+    B = np.array([[b, b + rng.randint(1, 40)] for b in (rng.randint(0, 200) for _ in range(N))], dtype=int)
+    with warnings.catch_warnings():
+        warnings.simplefilter("ignore")
+        got = float(wasserstein(A, B))
+    Af, Bf = A.astype(float), B.astype(float)
+    C = np.zeros((M + N, M + N))
+    C[:M, :N] = np.sqrt(((Af[:, None, :] - Bf[None, :, :]) ** 2).sum(axis=2))
+    C[:M, N:] = ((Af[:, 1] - Af[:, 0]) / math.sqrt(2))[:, None]
+    C[M:, :N] = ((Bf[:, 1] - Bf[:, 0]) / math.sqrt(2))[None, :]
+    r, c = linear_sum_assignment(C)
+    want = float(C[r, c].sum())
+    if abs(got - want) > 1e-7 * max(1.0, want):
+        rep.violation("%s of integer-typed diagrams with %d x %d points = %r, the optimal matching cost is %r" % (fn, M, N, got, want), "%s:value:huge-typed" % fn,
+                      {"input": {"generator": "random integer diagrams", "sizes": [M, N], "dtype": "int"}, "observed": got, "expected": want})
+    return 1
+
+
+
+def huge_typed_certificate(rep, rng):
+    """the matching of an integer-typed 1300 x 900 Wasserstein problem: every row's cost follows the cost rule, rows cover the points,
+    the sum is the reported distance"""
+    from persim import wasserstein
+    M, N = 1300, 900
+    A = np.array([[b, b + rng.randint(1, 40)] for b in (rng.randint(0, 200) for _ in range(M))], dtype=int)
+    B = np.array([[b, b + rng.randint(1, 40)] for b in (rng.randint(0, 200) for _ in range(N))], dtype=int)
+    with warnings.catch_warnings():
+        warnings.simplefilter("ignore")
+        d, rows = wasserstein(A, B, matching=True)
+    rows = np.asarray(rows, dtype=float)
+    Af, Bf = A.astype(float), B.astype(float)
+    bad = None
+    seen_i, seen_j = set(), set()
+    for i, j, c in rows:
+        i, j = int(i), int(j)
+        if i >= 0:
+            seen_i.add(i)
+        if j >= 0:
+            seen_j.add(j)
+        want = (math.hypot(*(Af[i] - Bf[j])) if i >= 0 and j >= 0 else ((Af[i, 1] - Af[i, 0]) / math.sqrt(2) if i >= 0 else ((Bf[j, 1] - Bf[j, 0]) / math.sqrt(2) if j >= 0 else 0.0)))
+        if abs(c - want) > 1e-9 * max(1.0, want):
+            bad = "row (%d, %d) carries cost %r, the cost rule gives %r" % (i, j, c, want)
+            break
+    if bad is None and (len(seen_i) != M or len(seen_j) != N):
+        bad = "rows cover %d / %d points of the two diagrams (%d / %d expected)" % (len(seen_i), len(seen_j), M, N)
+    if bad is None and abs(float(rows[:, 2].sum()) - float(d)) > 1e-7 * max(1.0, float(d)):
+        bad = "sum of the row costs %r differs from the reported distance %r" % (float(rows[:, 2].sum()), float(d))
+    if bad:
+        rep.violation("wasserstein matching of integer-typed diagrams with %d x %d points is not a certificate: %s" % (M, N, bad), "wasserstein:matching:huge-typed",
+                      {"input": {"generator": "random integer diagrams", "sizes": [M, N], "dtype": "int"}, "problem": bad})
+    return 1
